@@ -655,8 +655,13 @@ def c11(tier, rep):
     wp = [p for p in wp if "cap/" in p.id]
     fr3 = e2.run_family("c11wrappers", wp)
     judge_family(rep, fr3)
+    from . import fam_options as fo
+
+    op = fo.capture_programs(tier)
+    fr4 = e2.run_family("c11options", op, extra_header=fp.HEADER + fo.PRE)
+    judge_family(rep, fr4)
     rep.set("operators_with_captured_operands", sorted(ops))
-    rep.set("rule", "(a) every typed chain of length <= 2 whose expression operands (both operands of fold/try_fold) and initial value are ALL written as block captures, with ~ before none / the last / every operator, in 2- and 3-branch join! programs next to capture-dense Result branches (a distinct-constant capture on every action, Process and Err arms, mirrored (branch, action) positions); (b) depth profiles n<=3,d<=3 with a capture in every step of every branch in all 8 macro kinds; (c) captures inside wrappers (C02 family); oracle: value and trace equal the reference, which evaluates every capture once, after the previous step, before any branch expression of its step, in branch-then-position order")
+    rep.set("rule", "(d) capture-rich depth profiles behind custom_joiner / lazy_branches(true) (the lazy sequential joiner runs the branch closures in reverse order, so a capture left inside its branch closure is seen after another branch's expressions); (a) every typed chain of length <= 2 whose expression operands (both operands of fold/try_fold) and initial value are ALL written as block captures, with ~ before none / the last / every operator, in 2- and 3-branch join! programs next to capture-dense Result branches (a distinct-constant capture on every action, Process and Err arms, mirrored (branch, action) positions); (b) depth profiles n<=3,d<=3 with a capture in every step of every branch in all 8 macro kinds; (c) captures inside wrappers (C02 family); oracle: value and trace equal the reference, which evaluates every capture once, after the previous step, before any branch expression of its step, in branch-then-position order")
     sample_family(rep, progs, fr)
 
 
@@ -754,10 +759,15 @@ def c13(tier, rep):
     progs += handler_expr_programs()
     fr = e2.run_family("c13", progs, extra_header=fp.HEADER)
     judge_family(rep, fr)
+    from . import fam_options as fo
+
+    hp = fo.handler_programs(tier)
+    fr2 = e2.run_family("c13options", hp, extra_header=fp.HEADER + fo.PRE)
+    judge_family(rep, fr2)
     exe = e1.build()
     d = e1_mode(rep, exe, ["opts", "handlers"], "C13", "handler legality")
     rep.set("legality_inputs", d["inputs"] if d else 0)
-    rep.set("rule", "E2: depth profiles n<=3,d<=2 x 12 macros x {map, and_then | then} x handler written first / in the middle / last x EVERY failure subset (try) : handler event count, argument order, result wrapping vs the reference (handler called exactly once iff every branch succeeded; then: always); async then/and_then handlers return futures (awaited; the gated variants run under all wake-up orders in C09's set); E1: 8 configs x 3 handler kinds x 1-3 branches x every position x optional second handler at every position: rejection iff wrong kind or second handler")
+    rep.set("rule", "E2 under options: every handler kind, written first and last, behind custom_joiner / lazy_branches(true|false) / transpose_results(true) in sync, spawn, async and task-spawning kinds (async try with transpose_results(true): joined with a plain join and transposed by the macro — map still gets the unwrapped values and is skipped on failure), every failure subset; E2: depth profiles n<=3,d<=2 x 12 macros x {map, and_then | then} x handler written first / in the middle / last x EVERY failure subset (try) : handler event count, argument order, result wrapping vs the reference (handler called exactly once iff every branch succeeded; then: always); async then/and_then handlers return futures (awaited; the gated variants run under all wake-up orders in C09's set); E1: 8 configs x 3 handler kinds x 1-3 branches x every position x optional second handler at every position: rejection iff wrong kind or second handler")
     sample_family(rep, progs, fr)
 
 
@@ -801,7 +811,9 @@ def c19(tier, rep):
     from . import fam_costs as fc, fam_profiles as fp, fam_names as fn
 
     ap = fc.alloc_programs(tier) + fc.exact_alloc_programs()
-    fr = e2.run_family("c19alloc", ap, extra_header=fp.HEADER + fc.ALLOC_HEADER)
+    from . import fam_options as fo
+
+    fr = e2.run_family("c19alloc", ap, extra_header=fp.HEADER + fc.ALLOC_HEADER + fo.PRE)
     judge_family(rep, fr)
     alloc_free = sum(1 for p in ap if "allocation-free=true" in ((fr.results.get(p.id, {}).get("sample") or {}).get("value") or ""))
     rep.set("allocation_programs", len(ap))
